@@ -3,6 +3,7 @@ package workers
 
 import (
 	"errors"
+	"time"
 
 	"github.com/form3tech-oss/f1/v2/internal/metrics"
 	"github.com/form3tech-oss/f1/v2/internal/progress"
@@ -14,21 +15,26 @@ import (
 
 // ---- symbolic scenario programs -------------------------------------------------------------
 
+// stand-in for the stage-duration metric written by T.Time (global metrics instance)
+func c06RecordTime(_ *testing.T, _ string, _ time.Time) {}
+
 // body action opcodes
 const (
-	opNop      = iota
-	opCleanup  // register the next cleanup
-	opFail     // t.Fail()
-	opError    // t.Error(err)
-	opFailNow  // t.FailNow()
-	opFatal    // t.Fatal(err)
-	opPanicErr // panic(error value)
-	opPanicStr // panic("string")
-	opPanicInt // panic(42)
-	opNilDeref // runtime error
-	opPanicNil // panic(nil)
-	opErrorf   // t.Errorf(...)
-	opFatalf   // t.Fatalf(...)
+	opNop          = iota
+	opCleanup      // register the next cleanup
+	opFail         // t.Fail()
+	opError        // t.Error(err)
+	opFailNow      // t.FailNow()
+	opFatal        // t.Fatal(err)
+	opPanicErr     // panic(error value)
+	opPanicStr     // panic("string")
+	opPanicInt     // panic(42)
+	opNilDeref     // runtime error
+	opPanicNil     // panic(nil)
+	opErrorf       // t.Errorf(...)
+	opFatalf       // t.Fatalf(...)
+	opTimedFailNow // t.Time(stage, func() { t.FailNow() })
+	opTimedPanic   // t.Time(stage, func() { panic(err) })
 	numOps
 )
 
@@ -123,6 +129,10 @@ func c06Body(t *testing.T, it int, nact int, prefix string) {
 			t.Errorf("value %d is wrong", 7)
 		case opFatalf:
 			t.Fatalf("value %d is fatal", 7)
+		case opTimedFailNow:
+			t.Time("stage", func() { t.FailNow() })
+		case opTimedPanic:
+			t.Time("stage", func() { panic(errors.New("panic in a timed stage")) })
 		}
 	}
 	w.log = append(w.log, evBodyEnd+it*10000)
@@ -137,7 +147,7 @@ func c06Expect(it, nact int, prefix string) (failed bool, ncl int, completed boo
 			ncl++
 		case opFail, opError, opErrorf:
 			failed = true
-		case opFailNow, opFatal, opFatalf, opPanicErr, opPanicStr, opPanicInt, opNilDeref, opPanicNil:
+		case opFailNow, opFatal, opFatalf, opPanicErr, opPanicStr, opPanicInt, opNilDeref, opPanicNil, opTimedFailNow, opTimedPanic:
 			return true, ncl, false
 		}
 	}
@@ -167,7 +177,7 @@ func c06NewScenario(nact int) (*ActiveScenario, *progress.Stats) {
 }
 
 // VerifC06_IterationLifecycle: two consecutive iterations on ONE worker handle, each body an arbitrary
-// program (first body: 2 actions quick / 3 thorough; second body one action fewer) (13 opcodes: register a cleanup with one of 4 behaviours, Fail, Error, FailNow, Fatal,
+// program (first body: 2 actions quick / 3 thorough; second body one action fewer) (15 opcodes: register a cleanup with one of 4 behaviours, Fail, Error, FailNow, Fatal,
 // panic with error/string/int/nil, nil dereference), through the real ActiveScenario.Run, T.Reset, T.teardown,
 // CheckResults and handlePanic:
 //   - Run always returns normally (C07: no panic escapes to the worker)
@@ -179,6 +189,7 @@ func c06NewScenario(nact int) (*ActiveScenario, *progress.Stats) {
 //   - the recorded duration spans at least the body's own clock interval and ends before the first cleanup (C17)
 //
 //verif:replace (*$M/internal/metrics.Metrics).RecordIterationResult c06RecordIteration
+//verif:replace $M/pkg/f1/testing.recordTime c06RecordTime
 //verif:noreplay the metrics sink is replaced by a ghost list and the monotonic clock is a nondeterministic stub
 //verif:unroll 40
 func VerifC06_IterationLifecycle() { c06IterationLifecycle() }
@@ -187,6 +198,7 @@ func VerifC06_IterationLifecycle() { c06IterationLifecycle() }
 // exported-metrics sink, carrying the very classification the progress statistics received.
 //
 //verif:replace (*$M/internal/metrics.Metrics).RecordIterationResult c06RecordIteration
+//verif:replace $M/pkg/f1/testing.recordTime c06RecordTime
 //verif:noreplay the metrics sink is replaced by a ghost list and the monotonic clock is a nondeterministic stub
 //verif:unroll 40
 func VerifC16_IterationSamples() { c06IterationLifecycle() }
@@ -196,6 +208,7 @@ func VerifC16_IterationSamples() { c06IterationLifecycle() }
 // handle was reset (no queueing time) and ends before the first cleanup starts.
 //
 //verif:replace (*$M/internal/metrics.Metrics).RecordIterationResult c06RecordIteration
+//verif:replace $M/pkg/f1/testing.recordTime c06RecordTime
 //verif:noreplay the metrics sink is replaced by a ghost list and the monotonic clock is a nondeterministic stub
 //verif:unroll 40
 func VerifC17_DurationMeasured() { c06IterationLifecycle() }
@@ -266,7 +279,7 @@ func c06IterationLifecycle() {
 }
 
 // VerifC07_Containment: two (quick) / three (thorough) consecutive iterations on ONE worker handle, each body a single arbitrary action
-// (13 opcodes incl. every failure API and panics with error / string / int / nil / runtime error), optionally
+// (15 opcodes incl. every failure API and panics with error / string / int / nil / runtime error), optionally
 // preceded by registering a cleanup with arbitrary behaviour (nop / Fail / FailNow / panic): Run returns normally
 // every time (the worker survives), each iteration is reported by its OWN outcome to both sinks, a failure raised
 // inside a cleanup neither marks the iteration failed nor leaks into the next one, and every body starts with a
@@ -274,6 +287,7 @@ func c06IterationLifecycle() {
 // this or any later iteration is reported.
 //
 //verif:replace (*$M/internal/metrics.Metrics).RecordIterationResult c06RecordIteration
+//verif:replace $M/pkg/f1/testing.recordTime c06RecordTime
 //verif:noreplay the metrics sink is replaced by a ghost list and the monotonic clock is a nondeterministic stub
 //verif:unroll 40
 func VerifC07_Containment() {
